@@ -112,6 +112,8 @@ type CertSpec struct {
 	SKI      []byte
 	ExtraExt []pkix.Extension
 	NoBasic  bool
+	// RawSubject, when set, is used verbatim as the subject (and as issuer of what it signs).
+	RawSubject []byte
 }
 
 func intelName(cn string) pkix.Name {
@@ -134,6 +136,7 @@ func Issue(spec CertSpec, pub *Key, issuer *Cert, signKey *Key) *Cert {
 		SubjectKeyId:          spec.SKI,
 		ExtraExtensions:       spec.ExtraExt,
 		SignatureAlgorithm:    x509.ECDSAWithSHA256,
+		RawSubject:            spec.RawSubject,
 	}
 	if spec.IsCA && spec.PathLen >= 0 {
 		tmpl.MaxPathLen = spec.PathLen
@@ -372,4 +375,18 @@ func MakeCRL(spec CRLSpec, issuer *Cert, signKey *Key) []byte {
 		panic(fmt.Sprintf("world: CreateRevocationList: %v", err))
 	}
 	return derBytes
+}
+
+// NewLookalikeOf generates a hierarchy whose root copies the given real root certificate
+// (raw subject, serial number, key identifier, validity, CRL distribution points) but has a
+// key of its own: the closest thing to that root an attacker can make.
+func NewLookalikeOf(r Rand, label string, real *x509.Certificate, epoch time.Time) *PKI {
+	p := NewPKI(r, label, epoch, nil)
+	p.RootSpec.RawSubject = real.RawSubject
+	p.RootSpec.Serial = real.SerialNumber
+	p.RootSpec.SKI = real.SubjectKeyId
+	p.RootSpec.Win = Window{real.NotBefore, real.NotAfter}
+	p.RootSpec.CRLDP = real.CRLDistributionPoints
+	p.Rebuild()
+	return p
 }
